@@ -444,17 +444,22 @@ fn sqlerr<E: std::fmt::Debug>(e: E) -> VError {
 
 impl VGroupStore {
     pub fn new(kind: StoreKind, retention: usize, ctl: Arc<FaultCtl>) -> Self {
+        // 3 is the providers' default: then the stores are built the way an application that does not care builds them
+        // (`Default::default()` / no explicit limit), which must mean the same thing
         let mem = (kind != StoreKind::Sql).then(|| {
-            InMemoryGroupStateStorage::new()
-                .with_max_epoch_retention(retention)
-                .expect("retention > 0")
+            if retention == 3 {
+                InMemoryGroupStateStorage::default()
+            } else {
+                InMemoryGroupStateStorage::new().with_max_epoch_retention(retention).expect("retention > 0")
+            }
         });
         let sql = (kind != StoreKind::Mem).then(|| {
-            SqLiteDataStorageEngine::new(MemoryStrategy)
-                .expect("engine")
-                .group_state_storage()
-                .expect("sqlite group storage")
-                .with_max_epoch_retention(retention as u64)
+            let s = SqLiteDataStorageEngine::new(MemoryStrategy).expect("engine").group_state_storage().expect("sqlite group storage");
+            if retention == 3 {
+                s
+            } else {
+                s.with_max_epoch_retention(retention as u64)
+            }
         });
         VGroupStore {
             kind,
@@ -489,6 +494,35 @@ impl VGroupStore {
             }
         }
         n
+    }
+
+    /// SQLite only. On a deep copy of this store, a write that carries a new snapshot together with an epoch record whose
+    /// id is already stored (what a stale second handle on the same group would flush) fails on the primary key. A failed
+    /// write must leave nothing behind: `None` when not applicable (no SQLite part, nothing stored, or the write is
+    /// accepted), otherwise whether the copy still returns the snapshot and the epoch record it had.
+    pub fn failed_write_leaves_no_trace(&self, gid: &[u8]) -> Option<Result<(), String>> {
+        self.sql.as_ref()?;
+        let epochs: Vec<u64> = self.written.lock().unwrap().get(gid).cloned().unwrap_or_default().into_iter().collect();
+        let ctl = Arc::new(FaultCtl::default());
+        let fork = self.fork(ctl);
+        let mut sql = fork.sql.clone()?;
+        let e = epochs.into_iter().rev().find(|e| matches!(sql.epoch(gid, *e), Ok(Some(_))))?;
+        let before_state = sql.state(gid).ok()?.map(|x| x.to_vec())?;
+        let before_epoch = sql.epoch(gid, e).ok()?.map(|x| x.to_vec());
+        let marker = b"snapshot of a write that fails".to_vec();
+        let r = sql.write(GroupState { id: gid.to_vec(), data: marker.into() }, vec![EpochRecord::new(e, b"duplicate".to_vec().into())], vec![]);
+        if r.is_ok() {
+            return None;
+        }
+        let after_state = sql.state(gid).ok()?.map(|x| x.to_vec());
+        let after_epoch = sql.epoch(gid, e).ok()?.map(|x| x.to_vec());
+        if after_state.as_ref() != Some(&before_state) {
+            return Some(Err(format!("the write failed ({:?}) but the stored snapshot changed: {} -> {} bytes", r.err(), before_state.len(), after_state.map(|x| x.len()).unwrap_or(0))));
+        }
+        if after_epoch != before_epoch {
+            return Some(Err(format!("the write failed but the stored record of epoch {e} changed")));
+        }
+        Some(Ok(()))
     }
 
     pub fn delete_group(&self, gid: &[u8]) {
@@ -675,25 +709,24 @@ impl KeyPackageStorage for VKeyPkgStore {
 
 #[derive(Clone)]
 pub struct VPskStore {
-    pub map: Arc<Mutex<BTreeMap<Vec<u8>, Vec<u8>>>>,
+    /// the shipped in-memory PSK storage; this wrapper only adds call counting / fault injection
+    pub inner: InMemoryPreSharedKeyStorage,
     pub ctl: Arc<FaultCtl>,
 }
 
 impl VPskStore {
     pub fn new(ctl: Arc<FaultCtl>) -> Self {
-        VPskStore {
-            map: Default::default(),
-            ctl,
-        }
+        VPskStore { inner: Default::default(), ctl }
     }
+    /// insert or replace (a PSK rotated under the same id)
     pub fn put(&self, id: &[u8], value: &[u8]) {
-        self.map.lock().unwrap().insert(id.to_vec(), value.to_vec());
+        self.inner.clone().insert(ExternalPskId::new(id.to_vec()), PreSharedKey::new(value.to_vec()));
     }
     pub fn remove(&self, id: &[u8]) {
-        self.map.lock().unwrap().remove(id);
+        self.inner.clone().delete(&ExternalPskId::new(id.to_vec()));
     }
     pub fn value(&self, id: &[u8]) -> Option<Vec<u8>> {
-        self.map.lock().unwrap().get(id).cloned()
+        self.inner.get(&ExternalPskId::new(id.to_vec())).map(|p| p.raw_value().to_vec())
     }
 }
 
@@ -701,13 +734,10 @@ impl PreSharedKeyStorage for VPskStore {
     type Error = VError;
     fn get(&self, id: &ExternalPskId) -> Result<Option<PreSharedKey>, VError> {
         self.ctl.enter("psk.get")?;
-        Ok(self.map.lock().unwrap().get(id.as_ref()).map(|v| PreSharedKey::new(v.clone())))
+        Ok(self.inner.get(id))
     }
 }
 
-// keep the unused in-memory psk type referenced (documents that the shipped one is a plain map too)
-#[allow(unused)]
-fn _shipped_psk_type(_: InMemoryPreSharedKeyStorage) {}
 
 // ---------------------------------------------------------------------------------------------
 // identity
